@@ -56,7 +56,7 @@ def encode(c):
         if p.kind == "Q":
             o += b"Q" + b32(lev) + b32(p.total_blocks) + b32(p.free_blocks) + b32(len(p.splits))
             for s in p.splits:
-                o += bs(s.path) + bs(s.uuid) + b64(s.size)
+                o += bs(s.path) + bs(s.uuid) + b64(0xFFFFFFFFFFFFFFFF if s.size is None else s.size)
         else:
             o += b"P" + b32(lev) + b32(p.total_blocks) + b32(p.free_blocks) + bs(p.splits[0].uuid)
     for name in c.disk_order:
